@@ -286,6 +286,13 @@ pub const ATOMS: &[&str] = &[
     "-",
     "|",
     "_w_",
+    // a line break inside a span (matters when the span opens the block)
+    "*w\nv*",
+    "**w\nv**",
+    "[w\nv](k)",
+    // a link whose text is its url
+    "[k](k)",
+    "[2](2)",
 ];
 
 pub const HOSTS: &[&str] = &["para", "heading", "item", "nested-item", "quote", "cell"];
@@ -390,6 +397,27 @@ pub fn scale_doc(family: &str, n: usize) -> String {
         "rules" => (0..n).map(|_| "---\n\n".to_string()).collect(),
         "code-blocks" => (0..n).map(|i| format!("```\nc{}\n```\n\n", i)).collect(),
         _ => unreachable!("family {}", family),
+    }
+}
+
+/// ordered lists of n items around the marker-width thresholds (9/10, 99/100, 999/1000): single-line
+/// items and items with correctly indented further content (nested list, second paragraph, code)
+pub fn ordered_list_docs(ns: &[usize], emit: &mut dyn FnMut(&str)) {
+    for n in ns {
+        emit(&scale_doc("ordered-items", *n));
+        for variant in ["nested", "second-para", "code"] {
+            let mut s = String::new();
+            for i in 0..*n {
+                let marker = format!("{}. ", i + 1);
+                let ind = " ".repeat(marker.len());
+                match variant {
+                    "nested" => s.push_str(&format!("{}i{}\n{}- sub{}\n", marker, i, ind, i)),
+                    "second-para" => s.push_str(&format!("{}i{}\n\n{}second{}\n\n", marker, i, ind, i)),
+                    _ => s.push_str(&format!("{}i{}\n\n{}```\n{}code{}\n{}```\n\n", marker, i, ind, ind, i, ind)),
+                }
+            }
+            emit(&s);
+        }
     }
 }
 
